@@ -124,6 +124,15 @@ def main(argv=None):
                 results, shown, secs, out = K.run_kani(scratch.tree, unit.crate, [h.name for h in hs], total_budget, budget,
                                                        features=unit.features, env=unit.env, cbmc_args=unit.cbmc_args, jobs=unit.jobs)
                 cmds.append(shown)
+                # thorough tier: harnesses whose solver ran out of memory at the parallel budget get a second, nearly sequential
+                # run with a large resident-set budget before they are reported as resource-limited
+                oom = [h.name for h in hs if results[h.name].status == "out-of-memory"]
+                if args.tier == "thorough" and oom and os.environ.get("VERIF_NO_RETRY") != "1":
+                    log("[%s] kani: retrying %d out-of-memory harnesses with 2 jobs x %d GB" % (pid, len(oom), K.RETRY_MEM_GB))
+                    res2, shown2, secs2, out2 = K.run_kani(scratch.tree, unit.crate, oom, 900 + budget * (1 + len(oom) // 2), budget,
+                                                            features=unit.features, env=unit.env, cbmc_args=unit.cbmc_args, jobs=2, mem_gb=K.RETRY_MEM_GB)
+                    cmds.append(shown2)
+                    results.update(res2)
                 for h in hs:
                     r = results[h.name]
                     rep = r.to_json()
